@@ -111,8 +111,10 @@ func (b *BoundedIterator) Seek(target []byte) bool {
 		target = b.start
 	}
 
-	// If target is at or after end bound, the seek will fail
+	// If target is at or after end bound, the seek will fail; still move the
+	// underlying iterator so that it does not stay valid at its old position
 	if b.end != nil && bytes.Compare(target, b.end) >= 0 {
+		b.Iterator.Seek(target)
 		return false
 	}
 
